@@ -586,7 +586,7 @@ fn failed_get_is_repeatable(out: &mut Out, rng: &mut Prng) {
             ($t:ty) => {{
                 let show = |r: Result<$t, UnmarshalError>| match r {
                     Ok(_) => "ok".to_string(),
-                    Err(e) => format!("err:{}", err_name(&e)),
+                    Err(e) => format!("err:{:?}", e),
                 };
                 let mut fresh = body.parser();
                 let _ = fresh.get::<u32>();
@@ -595,12 +595,12 @@ fn failed_get_is_repeatable(out: &mut Out, rng: &mut Prng) {
                 let _ = p.get::<u32>();
                 let r1 = show(p.get::<$t>());
                 let r2 = show(p.get::<$t>());
-                let d1 = p.get_param().map(|_| ()).map_err(|e| err_name(&e));
-                let d2 = p.get_param().map(|_| ()).map_err(|e| err_name(&e));
+                let d1 = p.get_param().map(|_| ()).map_err(|e| format!("{:?}", e));
+                let d2 = p.get_param().map(|_| ()).map_err(|e| format!("{:?}", e));
                 let r3 = show(p.get::<$t>());
                 let mut fresh2 = body.parser();
                 let _ = fresh2.get::<u32>();
-                let d0 = fresh2.get_param().map(|_| ()).map_err(|e| err_name(&e));
+                let d0 = fresh2.get_param().map(|_| ()).map_err(|e| format!("{:?}", e));
                 let tag = format!("{} body {} {}", bo_name(bo), full_sig, hex(&buf));
                 if r0 == "ok" {
                     out.violation("failed-get", &format!("the probe value decodes ({}): not a failing get", tag));
